@@ -5,6 +5,7 @@ C06 — obligations on what is regenerated from the code on every check
 per-helper correspondence lines (`bquo bmul blsh brsh bmask …`) execute.
 -/
 import WuffsVerif.Proof.IntervalTables
+import WuffsVerif.Proof.IntervalPreds
 
 namespace WuffsVerif.Props.C06
 open WuffsVerif.Interval
@@ -47,6 +48,35 @@ theorem bigShift_spec (i j : Int) :
   refine ⟨fun h => ?_, rfl, rfl⟩
   have : j.toNat = 0 := by omega
   simp [this]
+
+/-! ## the public predicates (used by the operators for their failure conditions and by the
+checker) mean what their names say -/
+
+theorem containsNonNegative_iff_member (X : IR) :
+    X.containsNonNegative = true ↔ ∃ v, X.mem v ∧ 0 ≤ v := containsNonNegative_iff X
+
+theorem containsPositive_iff_member (X : IR) :
+    X.containsPositive = true ↔ ∃ v, X.mem v ∧ 0 < v := containsPositive_iff X
+
+theorem containsNegative_iff_member (X : IR) :
+    X.containsNegative = true ↔ ∃ v, X.mem v ∧ v < 0 := containsNegative_iff X
+
+/-- `ContainsZero` / `ContainsInt` are plain membership (also for an empty interval, where the
+bounds are compared as they are) -/
+theorem containsInt_iff_member (X : IR) (i : Int) :
+    (X.containsInt i = true ↔ X.mem i) ∧ (X.containsZero = true ↔ X.mem 0) :=
+  ⟨containsInt_iff X i, containsZero_iff X⟩
+
+/-- `ContainsIntRange` is set inclusion (for all intervals, empty and infinite ones included) -/
+theorem containsIntRange_iff_subset (X Y : IR) :
+    X.containsIntRange Y = true ↔ ∀ v, Y.mem v → X.mem v := containsIntRange_iff X Y
+
+/-- `Eq` is equality of the two sets of members (all empty representations are equal) -/
+theorem eq_iff_same_members (X Y : IR) : X.eq Y = true ↔ ∀ v, X.mem v ↔ Y.mem v := eq_iff X Y
+
+example : (⟨some 3, some 1⟩ : IR).eq ⟨some 1, some (-1)⟩ = true ∧
+    (⟨none, some 5⟩ : IR).containsIntRange ⟨some 2, some 5⟩ = true ∧
+    (⟨some 0, some 5⟩ : IR).containsIntRange ⟨none, some 5⟩ = false := by decide
 
 /-- the machine-word boundary instance that a native `int64` division gets wrong:
 `[-2^63 ..= -2^63+10] / [-3 ..= -1] = [2^63/3 ..= 2^63]`. -/
